@@ -12,22 +12,23 @@ import XjsModel.Props.C10
 namespace Xjs.LP
 open Xjs Xjs.RA
 
-/-- a token without position, line-break flag and comments (what a programmatic tree carries, and what erasing the
-    trivia of a parsed tree leaves) -/
-def normalTok (t : Token) : Prop := t.sl = 0 ∧ t.sc = 0 ∧ t.el = 0 ∧ t.ec = 0 ∧ t.nl = false ∧ t.comments = []
+/-- a token that does not stand after a line break and carries no comment (what a programmatic tree carries, and
+    what erasing the trivia of a parsed tree leaves); its position is arbitrary -/
+def quietTok (t : Token) : Prop := t.nl = false ∧ t.comments = []
 
-instance : DecidablePred normalTok := fun t => by unfold normalTok; infer_instance
+instance : DecidablePred quietTok := fun t => by unfold quietTok; infer_instance
 
-theorem tokZ_of_key (l p : Token) (h : keyOf4 l = quietKey p) (hp : normalTok p) : Pos.tokZ l = p := by
-  obtain ⟨h1, h2, h3, h4, h5, h6⟩ := hp
+theorem tokZ_of_key (l p : Token) (h : keyOf4 l = quietKey p) (hp : quietTok p) : Pos.tokZ l = Pos.tokZ p := by
+  obtain ⟨h5, h6⟩ := hp
   simp only [keyOf4, quietKey, Prod.mk.injEq] at h
   obtain ⟨⟨ht, hl⟩, hn, hc⟩ := h
   cases l; cases p
   simp only [Pos.tokZ] at *
-  subst ht hl hn hc h1 h2 h3 h4 h5 h6
+  subst ht hl hn hc h5 h6
   rfl
 
-theorem map_tokZ_of_keys : ∀ (L Q : List Token), L.map keyOf4 = Q.map quietKey → (∀ q ∈ Q, normalTok q) → L.map Pos.tokZ = Q
+theorem map_tokZ_of_keys : ∀ (L Q : List Token), L.map keyOf4 = Q.map quietKey → (∀ q ∈ Q, quietTok q) →
+    L.map Pos.tokZ = Q.map Pos.tokZ
   | [], [], _, _ => rfl
   | [], _ :: _, h, _ => by simp at h
   | _ :: _, [], h, _ => by simp at h
@@ -35,38 +36,45 @@ theorem map_tokZ_of_keys : ∀ (L Q : List Token), L.map keyOf4 = Q.map quietKey
     simp only [List.map_cons, List.cons.injEq] at h
     simp only [List.map_cons, tokZ_of_key l q h.1 (hq q (by simp)), map_tokZ_of_keys L Q h.2 (fun x hx => hq x (by simp [hx]))]
 
-theorem normal_dummy : normalTok dummyTok := ⟨rfl, rfl, rfl, rfl, rfl, rfl⟩
+theorem quiet_dummy : quietTok dummyTok := ⟨rfl, rfl⟩
 
-/-- PRINT → LEX → PARSE: for every well-formed program tree with lexically sane, position-free tokens, in every parser
-    mode: parsing the text that the compiler emits in compact mode returns — without any error — a tree that is the
-    original one once its token positions are erased -/
+theorem errZ_nil (es : List PErr) (h : es.map Pos.errZ = []) : es = [] := by
+  cases es with
+  | nil => rfl
+  | cons e es => simp at h
+
+/-- PRINT → LEX → PARSE: for every well-formed program tree with lexically sane tokens, none of which stands after a line
+    break or carries a comment, in every parser mode: parsing the text that the compiler emits in compact mode returns —
+    without any error — a tree that equals the original one up to the positions of its tokens -/
 theorem compact_round_trip (tolerant smart : Bool) (ccfg : CompCfg) (hc : ccfg.pretty = false) (prog : SSList)
-    (hw : prog.wf = true) (ht : prog.term = true) (hs : saneB prog) (hn : ∀ t ∈ prog.toks, normalTok t) :
+    (hw : prog.wf = true) (ht : prog.term = true) (hs : saneB prog) (hn : ∀ t ∈ prog.toks, quietTok t) :
     ∃ r, parseSource { tolerant := tolerant, smart := smart } (compile ccfg prog.tree).code = some r ∧
-      Pos.stmtListZ r.prog = prog.tree ∧ r.errors = [] ∧ r.hasErr = false := by
+      Pos.stmtListZ r.prog = Pos.stmtListZ prog.tree ∧ r.errors = [] ∧ r.hasErr = false := by
   -- the parser returns on the lexed text
   obtain ⟨ts, e, h1, h2, _⟩ := Xjs.C10.lexAll_total (compile ccfg prog.tree).code
   obtain ⟨r, hr⟩ := Total.parseProgram_total (Total.tablesOk_base tolerant smart [] []) (lexAll (compile ccfg prog.tree).code) ⟨ts, e, h1, h2⟩
   refine ⟨r, hr, ?_⟩
-  -- the position-free lexed tokens are the printed tokens and an end marker
+  -- position-free, the lexed tokens are the printed tokens and an end marker
   have hk := compact_text_lexes4 ccfg hc prog hw ht hs
-  have hL : (lexAll (compile ccfg prog.tree).code).map Pos.tokZ = prog.toks ++ [dummyTok] := by
+  have hL : (lexAll (compile ccfg prog.tree).code).map Pos.tokZ = (prog.toks ++ [dummyTok]).map Pos.tokZ := by
     apply map_tokZ_of_keys
     · rw [hk]; simp [quietKey, eofKey, dummyTok]
     · intro q hq
       rcases List.mem_append.1 hq with hq | hq
       · exact hn q hq
       · have : q = dummyTok := by simpa using hq
-        rw [this]; exact normal_dummy
-  -- parsing commutes with erasing positions; the printed tokens parse back to the tree
+        rw [this]; exact quiet_dummy
+  -- parsing commutes with erasing positions (on both token lists); the printed tokens parse back to the tree
   have hz := Pos.pos_parseProgram (cfg := { tolerant := tolerant, smart := smart }) _ r hr
-  rw [hL] at hz
   obtain ⟨r0, hr0, hp0, he0, hh0⟩ := printed_program_round_trip (cfg := { tolerant := tolerant, smart := smart })
     ⟨rfl, rfl, rfl, rfl, rfl⟩ prog hw ht dummyTok rfl
-  rw [hr0] at hz
-  have := Option.some.inj hz
-  rw [this] at hp0 he0 hh0
-  simp only at hp0 he0 hh0
-  exact ⟨hp0, by simpa using he0, hh0⟩
+  have hz0 := Pos.pos_parseProgram (cfg := { tolerant := tolerant, smart := smart }) _ r0 hr0
+  rw [hL, hz0] at hz
+  have hh := Option.some.inj hz
+  simp only [ParseResult.mk.injEq] at hh
+  refine ⟨?_, ?_, ?_⟩
+  · rw [← hh.1, hp0]
+  · apply errZ_nil; rw [← hh.2.1, he0]; rfl
+  · rw [← hh.2.2.1, hh0]
 
 end Xjs.LP
